@@ -27,7 +27,8 @@ Fixpoint berr_eqb (a b : berr) : bool :=
   | EOrchardBuild, EOrchardBuild | EIronwoodBuild, EIronwoodBuild | EOrchardSpend, EOrchardSpend
   | EOrchardRecipient, EOrchardRecipient | EIronwoodSpend, EIronwoodSpend
   | EIronwoodNoteVersion, EIronwoodNoteVersion | EIronwoodRecipient, EIronwoodRecipient
-  | ESaplingNA, ESaplingNA | EOrchardNA, EOrchardNA | EIronwoodNA, EIronwoodNA | EOther, EOther => true
+  | ESaplingNA, ESaplingNA | EOrchardNA, EOrchardNA | EIronwoodNA, EIronwoodNA | EOther, EOther
+  | EDeferral, EDeferral => true
   | _, _ => false
   end.
 
@@ -38,7 +39,7 @@ Definition shb_eqb (a b : shb) : bool :=
 Definition built_eqb (a b : built) : bool :=
   ver_eqb (b_ver a) (b_ver b) && (b_branch a =? b_branch b) && (b_expiry a =? b_expiry b)
   && (b_lock a =? b_lock b)
-  && list_eqb Z.eqb (b_tin a) (b_tin b) && list_eqb pair_z_eqb (b_tout a) (b_tout b)
+  && list_eqb pair_z_eqb (b_tin a) (b_tin b) && list_eqb pair_z_eqb (b_tout a) (b_tout b)
   && option_eqb shb_eqb (b_sap a) (b_sap b) && option_eqb shb_eqb (b_orc a) (b_orc b)
   && option_eqb shb_eqb (b_iw a) (b_iw b)
   && option_eqb Z.eqb (b_fee_paid a) (b_fee_paid b)
@@ -76,6 +77,8 @@ Definition prop_case (c : case) : bool :=
     | Err (ETarget v _) => ver_eqb v (requested_version r) && version_refusable r ops v
     | Err (EAdd i (ETarget v _)) =>
         is_propose (nth_error ops (Z.to_nat i)) v && version_refusable r (firstn (Z.to_nat i) ops) v
+    | Err EDeferral =>       (* only the deferring builder, only off the V6 branch *)
+        is_deferred r && negb (branch_has_ironwood (branch_at (r_net r) (r_height r)))
     | Err _ => true          (* any other refusal: no transaction was emitted *)
     | Panic => panic_class r
     end
@@ -86,7 +89,7 @@ Definition known_class (c : case) : N := 0%N.
 
 Definition ver_idx (v : ver) : N :=
   match v with VSprout _ => 0 | V3 => 1 | V4 => 2 | V5 => 3 | V6 => 4 end%N.
-Definition route_idx (r : route) : N := match r with Mock => 0 | Build => 1 | Pczt => 2 end%N.
+Definition route_idx (r : route) : N := match r with Mock => 0 | Build => 1 | Pczt => 2 | Deferred => 3 end%N.
 
 Fixpoint err_tag (e : berr) : N :=
   match e with
@@ -96,7 +99,7 @@ Fixpoint err_tag (e : berr) : N :=
   | ETransparentBuild => 9 | ESaplingZip212 => 10 | ESaplingAmount => 11 | ESaplingBuild => 12
   | EOrchardBuild => 13 | EIronwoodBuild => 14 | EOrchardSpend => 15 | EOrchardRecipient => 16
   | EIronwoodSpend => 17 | EIronwoodNoteVersion => 18 | EIronwoodRecipient => 19
-  | ESaplingNA => 20 | EOrchardNA => 21 | EIronwoodNA => 22 | EOther => 23
+  | ESaplingNA => 20 | EOrchardNA => 21 | EIronwoodNA => 22 | EOther => 23 | EDeferral => 24
   | EAdd _ e => 30 + err_tag e
   end%N.
 
@@ -112,5 +115,5 @@ Definition tag_case (c : case) : N :=
              || padded_bundle (b_iw b) (is_vals (r_ops r)) (io_vals (r_ops r))
           then 50 else 0))%N
   | Case _ _ (Err e) => err_tag e
-  | Case r _ Panic => if r_sap r && negb (in_bal (sapling_balance (r_ops r))) then 90%N else 91%N
+  | Case r _ Panic => if negb (is_deferred r) && r_sap r && negb (in_bal (sapling_balance (r_ops r))) then 90%N else 91%N
   end.
